@@ -3,7 +3,8 @@
    the functions of C06/Model.v that the correspondence tie executes. *)
 From Coq Require Import List ZArith Bool Reals Lra Lia String Ascii.
 From T4V Require Import Base.Str Base.Scalar C06.Model
-     C06.ProofsIndex C06.ProofsNumeric C06.ProofsDevelop C06.ProofsTop C06.ProofsText.
+     C06.ProofsIndex C06.ProofsNumeric C06.ProofsDevelop C06.ProofsTop C06.ProofsText
+     C06.ProofsEndToEnd.
 Import ListNotations.
 
 (* ---- index order ----------------------------------------------------------
@@ -324,6 +325,129 @@ Proof.
   - now apply (parse_lattice_too_many head cell strs bs).
 Qed.
 Print Assumptions C06_parse_lattice_option.
+
+(* ---- end to end: which points belong to a volume of which material ----------
+   Interface restated from C05/C04 (not proved here): cell_transform(key, T)
+   creates a cell whose region is the image of the region of key under apply_tr T;
+   pot_fill of a cell with fill universe u and non-empty fill transformation F
+   creates, for every developed leaf cell (r, m) of universe u, the volume
+   cell /\ image of r under F, with material m (lattice_volumes / volumes_of_elem).
+   lattice_owner p m = what MCNP means: p lies in the unit cell translated by
+   t = i a1 + j a2 + k a3 for a tuple (i,j,k) of the declared ranges whose array
+   entry u (first index fastest) is not 0, and either u is the lattice's own
+   universe and m the lattice cell's material, or p = t + placement(q) for a
+   point q of a leaf cell of universe u with material m. *)
+Theorem C06_lattice_end_to_end :
+  forall (M : Type) (unit_cell : region) (own_mat : M) (leaves : Z -> list (region * M))
+         (cell : @lat_cell R) (vecs : list (@vec R)) (bs : bounds) (spec : list Z),
+  lc_fill cell = FSpec bs spec -> bs <> [] -> wf_bounds bs ->
+  Z.of_nat (List.length spec) = size bs ->
+  (List.length vecs <= List.length bs)%nat -> Forall trivial_range (skipn (List.length vecs) bs) ->
+  cell_shape_ok cell ->
+  exists elems, develop_lattice_with RS (Ok vecs) cell = Ok elems /\
+    forall p m, (exists r, In (r, m) (lattice_volumes unit_cell own_mat leaves elems) /\ r p) <->
+                lattice_owner unit_cell own_mat leaves cell vecs bs spec p m.
+Proof. intros M. exact (@lattice_end_to_end M). Qed.
+Print Assumptions C06_lattice_end_to_end.
+
+(* the same from the surfaces of the cell card (three pairs of planes) *)
+Theorem C06_lattice_end_to_end_3d :
+  forall (M : Type) (unit_cell : region) (own_mat : M) (leaves : Z -> list (region * M))
+         (dic : Z -> list (@plane R * Z)) (ids : list Z) (cell : @lat_cell R) (bs : bounds)
+         (spec : list Z) sa sb sc sd se sf,
+  lc_fill cell = FSpec bs spec -> bs <> [] -> wf_bounds bs ->
+  Z.of_nat (List.length spec) = size bs ->
+  (3 <= List.length bs)%nat -> Forall trivial_range (skipn 3 bs) -> cell_shape_ok cell ->
+  extract_surfaces dic ids = [sa; sb; sc; sd; se; sf] ->
+  spacing sa sb <> 0%R -> spacing sc sd <> 0%R -> spacing se sf <> 0%R ->
+  triple (outward sa) (outward sc) (outward se) <> 0%R ->
+  exists a1 a2 a3 elems, develop_lattice RS dic ids cell = Ok elems /\
+    dot a1 (outward sa) = spacing sa sb /\ dot a1 (outward sc) = 0%R /\ dot a1 (outward se) = 0%R /\
+    dot a2 (outward sa) = 0%R /\ dot a2 (outward sc) = spacing sc sd /\ dot a2 (outward se) = 0%R /\
+    dot a3 (outward sa) = 0%R /\ dot a3 (outward sc) = 0%R /\ dot a3 (outward se) = spacing se sf /\
+    forall p m, (exists r, In (r, m) (lattice_volumes unit_cell own_mat leaves elems) /\ r p) <->
+                lattice_owner unit_cell own_mat leaves cell [a1; a2; a3] bs spec p m.
+Proof. intros M. exact (@lattice_end_to_end_3d M). Qed.
+Print Assumptions C06_lattice_end_to_end_3d.
+
+(* ... and from one or two pairs of planes (lattices infinite in the other
+   directions; the FILL array may still have three ranges, the surplus ones
+   one-point ranges) *)
+Theorem C06_lattice_end_to_end_1d_2d :
+  forall (M : Type) (unit_cell : region) (own_mat : M) (leaves : Z -> list (region * M))
+         (dic : Z -> list (@plane R * Z)) (ids : list Z) (cell : @lat_cell R) (bs : bounds) (spec : list Z),
+  lc_fill cell = FSpec bs spec -> bs <> [] -> wf_bounds bs ->
+  Z.of_nat (List.length spec) = size bs -> cell_shape_ok cell ->
+  (forall sa sb, (1 <= List.length bs)%nat -> Forall trivial_range (skipn 1 bs) ->
+     extract_surfaces dic ids = [sa; sb] -> spacing sa sb <> 0%R ->
+     exists a elems, develop_lattice RS dic ids cell = Ok elems /\
+       dot a (outward sa) = spacing sa sb /\ (exists k, a = rescale RS k (outward sa)) /\
+       forall p m, (exists r, In (r, m) (lattice_volumes unit_cell own_mat leaves elems) /\ r p) <->
+                   lattice_owner unit_cell own_mat leaves cell [a] bs spec p m) /\
+  (forall sa sb sc sd, (2 <= List.length bs)%nat -> Forall trivial_range (skipn 2 bs) ->
+     extract_surfaces dic ids = [sa; sb; sc; sd] ->
+     spacing sa sb <> 0%R -> spacing sc sd <> 0%R -> gram2 (outward sa) (outward sc) <> 0%R ->
+     exists a1 a2 elems, develop_lattice RS dic ids cell = Ok elems /\
+       dot a1 (outward sa) = spacing sa sb /\ dot a1 (outward sc) = 0%R /\
+       dot a2 (outward sa) = 0%R /\ dot a2 (outward sc) = spacing sc sd /\
+       (exists x y, a1 = lin2 x y (outward sa) (outward sc)) /\
+       (exists x y, a2 = lin2 x y (outward sa) (outward sc)) /\
+       forall p m, (exists r, In (r, m) (lattice_volumes unit_cell own_mat leaves elems) /\ r p) <->
+                   lattice_owner unit_cell own_mat leaves cell [a1; a2] bs spec p m).
+Proof.
+  intros M unit_cell own_mat leaves dic ids cell bs spec H1 H2 H3 H4 H5. split.
+  - intros. now apply (@lattice_end_to_end_1d M).
+  - intros. now apply (@lattice_end_to_end_2d M).
+Qed.
+Print Assumptions C06_lattice_end_to_end_1d_2d.
+
+(* ---- FILL arrays on the cell card (ParseMCNPCell.parse_fill_kw) -----------------
+   tokens in reading order after "(", ")" and "=" have become blanks.
+   spells_int t u: t is a spelling of the integer u; param_token t: t starts
+   like a number and to_float reads it; keyword_or_end: the next token (if any)
+   does not start like a number.                                              *)
+(* ranges, then EXACTLY size(ranges) universes in card order, then every
+   following numeric token - however many - is a parameter of ONE
+   transformation of the whole array: nothing is rejected, nothing is attached
+   to a single entry *)
+Theorem C06_parse_fill_kw_array :
+  forall (first : string) (more : list string) (bs : bounds) (utoks : list string) (us : list Z)
+         (sur tail : list string),
+  Forall2 spells_range (first :: more) bs -> wf_bounds bs ->
+  Forall2 spells_int utoks us -> Z.of_nat (List.length us) = size bs ->
+  Forall param_token sur -> keyword_or_end tail ->
+  parse_fill_kw first (more ++ utoks ++ sur ++ tail)%list = Ok (mkFillKw (Some bs) (FArr us) sur tail).
+Proof. exact parse_fill_kw_array. Qed.
+Print Assumptions C06_parse_fill_kw_array.
+
+(* too few universes before the end of the card: ParseMCNPCellError; and what
+   0 / 1 / 3 / any other number of parameter tokens become *)
+Theorem C06_parse_fill_kw_short_and_shapes :
+  (forall (first : string) (more : list string) (bs : bounds) (utoks : list string) (us : list Z),
+     Forall2 spells_range (first :: more) bs -> Forall2 spells_int utoks us ->
+     (Z.of_nat (List.length us) < size bs)%Z ->
+     parse_fill_kw first (more ++ utoks)%list = Err EParseCell) /\
+  (forall star : bool,
+     fill_params_shape star [] = PNone /\
+     (forall t, fill_params_shape star [t] = PNumber t) /\
+     (forall a b c, fill_params_shape star [a; b; c] = PTranslation a b c) /\
+     (forall l, List.length l <> 0%nat -> List.length l <> 1%nat -> List.length l <> 3%nat ->
+        fill_params_shape star l = PMatrix star l)).
+Proof. split; [exact parse_fill_kw_array_short|exact fill_params_shapes]. Qed.
+Print Assumptions C06_parse_fill_kw_short_and_shapes.
+
+(* finding array_entry_transformation: 'fill=-1:1 0:0 0:0 5 5 5(0 1 0)' - MCNP
+   attaches (0 1 0) to the LAST entry; the code makes it the translation of the
+   whole array (then applied to every element by develop_lattice) *)
+Theorem C06_array_entry_transformation_refuted :
+  exists first stack k,
+    parse_fill_kw first stack = Ok k /\
+    fk_univs k = FArr [5; 5; 5]%Z /\ fill_params_shape false (fk_params k) = PTranslation "0" "1" "0".
+Proof.
+  exists "-1:1"%string, ["0:0"; "0:0"; "5"; "5"; "5"; "0"; "1"; "0"; "imp:n"; "1"]%string.
+  eexists. split; [vm_compute; reflexivity|]. split; reflexivity.
+Qed.
+Print Assumptions C06_array_entry_transformation_refuted.
 
 (* ---- non-vacuity ------------------------------------------------------------ *)
 (* a skew 2-D unit cell: planes x = +-1 (far plane first) and x + y = +-1 (near
